@@ -665,14 +665,86 @@ Proof.
     apply IH in H; [|exact Hb1|lia]. destruct H as [Hb' Hn']. split; [exact Hb'|lia].
 Qed.
 
+(* the invariant also holds between the atomic steps inside one iteration *)
+Lemma binv_mono st st' :
+  s_running st' = s_running st -> s_ntrials st' = s_ntrials st -> act_mono st st' -> binv st -> binv st'.
+Proof.
+  intros R1 R2 Hm (I1 & I2 & I3). unfold binv. rewrite R1, R2. repeat split; auto.
+Qed.
+
+(* ---- the two ways of counting busy workers (start_jobs_without_delay) ------------------------------------------- *)
+(* [blook st st1]: st1 = st, or st1 is st after backend.busy_trial_ids() looked at every active worker *)
+Definition blook (st st1 : state) : Prop := st1 = st \/ exists busy, busy_look o st = (st1, busy).
+
+Lemma atr_cursors ids : forall st,
+  s_nw st <= s_nw (all_trial_results o ids st) /\ s_nc (all_trial_results o ids st) = s_nc st.
+Proof.
+  unfold all_trial_results. induction ids as [|t ids IH]; intro st; simpl; [auto|].
+  destruct (IH (world_apply o t st)) as [A B].
+  assert (C : s_nw st <= s_nw (world_apply o t st) /\ s_nc (world_apply o t st) = s_nc st).
+  { unfold world_apply. destruct (active (b_w (s_bt st t))); [|auto]. destruct (o_world o (s_nw st)). simpl. auto. }
+  destruct C as [C1 C2]. split; [lia|congruence].
+Qed.
+
+Lemma busy_look_spec st st1 busy : busy_look o st = (st1, busy) ->
+  s_running st1 = s_running st /\ s_ntrials st1 = s_ntrials st /\ s_trace st1 = EBBusy busy :: s_trace st /\
+  s_last st1 = s_last st /\ s_sstopped st1 = s_sstopped st /\ s_smap st1 = s_smap st /\ s_doneall st1 = s_doneall st /\
+  act_mono st st1 /\ (forall x, td_of st1 x = td_of st x) /\ (forall x, w_of st1 x = Paused -> w_of st x = Paused) /\
+  s_nw st <= s_nw st1 /\ s_nc st1 = s_nc st.
+Proof.
+  unfold busy_look. intro H. injection H as <- <-.
+  pose proof (atr_same (seq 0 (s_ntrials st)) st) as (S1 & S2 & S3 & S4 & S5 & S6 & S7).
+  destruct (atr_cursors (seq 0 (s_ntrials st)) st) as [C1 C2].
+  simpl. rewrite S3. repeat split; auto.
+  - apply atr_mono.
+  - intro x. apply atr_td.
+  - intro x. apply atr_paused.
+Qed.
+
+Lemma schedule_new_tasks_cases st st' r :
+  schedule_new_tasks prm o st = (st', r) ->
+  exists st1, blook st st1 /\
+    ((st' = sleep st1 /\ r = SOk) \/
+     (exists k, length (s_running st1) + k <= n_workers prm /\ schedule_k o k st1 = (st', r))).
+Proof.
+  unfold schedule_new_tasks, count_busy. intro H.
+  assert (G : forall st1 nb, length (s_running st1) <= nb ->
+            (if Nat.leb (if async prm then n_workers prm else 1) nb then (sleep st1, SOk)
+             else schedule_k o (n_workers prm - nb) st1) = (st', r) ->
+            (st' = sleep st1 /\ r = SOk) \/
+            (exists k, length (s_running st1) + k <= n_workers prm /\ schedule_k o k st1 = (st', r))).
+  { intros st1 nb Hnb H1. destruct (Nat.leb _ nb) eqn:El.
+    - injection H1 as <- <-. auto.
+    - right. exists (n_workers prm - nb). split; [|exact H1]. apply Nat.leb_gt in El. destruct (async prm); lia. }
+  destruct (sjwd prm).
+  - exists st. split; [left; reflexivity|]. eapply G; [|exact H]. lia.
+  - destruct (busy_look o st) as [st1 busy] eqn:Eb. exists st1. split; [right; exists busy; exact Eb|].
+    eapply G; [|exact H]. lia.
+Qed.
+
+(* an invariant kept by the busy look, by sleeping and by scheduling with free workers is kept by _schedule_new_tasks *)
+Lemma schedule_new_tasks_inv (X : state -> Prop) st st' r :
+  (forall s s1, blook s s1 -> X s -> X s1) -> (forall s, X s -> X (sleep s)) ->
+  (forall k s s2 r2, schedule_k o k s = (s2, r2) -> length (s_running s) + k <= n_workers prm -> X s -> X s2) ->
+  schedule_new_tasks prm o st = (st', r) -> X st -> X st'.
+Proof.
+  intros Hb Hs Hk H HX. apply schedule_new_tasks_cases in H. destruct H as (st1 & Hbl & [[-> ->]|(k & Hlen & Hk')]).
+  - apply Hs. eapply Hb; eauto.
+  - eapply Hk; eauto.
+Qed.
+
+Lemma blook_binv st st1 : blook st st1 -> binv st -> binv st1 /\ s_ntrials st1 = s_ntrials st.
+Proof.
+  intros [->|[busy H]] Hb; [auto|]. apply busy_look_spec in H. destruct H as (R1 & R2 & _ & _ & _ & _ & _ & Hm & _).
+  split; [apply (binv_mono st st1); auto|exact R2].
+Qed.
+
 Lemma schedule_new_tasks_budget st st' r :
   schedule_new_tasks prm o st = (st', r) -> binv st -> binv st' /\ s_ntrials st <= s_ntrials st'.
 Proof.
-  unfold schedule_new_tasks. intros H Hb.
-  destruct (Nat.leb (if async prm then n_workers prm else 1) (length (s_running st))) eqn:El.
-  - injection H as <- <-. split; [apply binv_emit; exact Hb|simpl; lia].
-  - apply Nat.leb_gt in El. eapply schedule_k_budget; eauto.
-    destruct Hb as (_ & I2 & _). destruct (async prm); lia.
+  intros H Hb. apply schedule_new_tasks_cases in H. destruct H as (st1 & Hbl & [[-> ->]|(k & Hlen & Hk)]).
+  - destruct (blook_binv _ _ Hbl Hb) as [Hb1 Hn]. split; [apply binv_emit; exact Hb1|simpl; lia].
+  - destruct (blook_binv _ _ Hbl Hb) as [Hb1 Hn]. destruct (schedule_k_budget _ _ _ _ Hk Hb1 Hlen) as [A B]. split; [exact A|lia].
 Qed.
 
 Lemma iteration_end_budget st st' c : iteration_end prm o st = (st', c) -> binv st -> binv st' /\ s_ntrials st' = s_ntrials st.
@@ -698,7 +770,8 @@ Proof.
 Qed.
 Lemma schedule_new_tasks_err st st' e : schedule_new_tasks prm o st = (st', SErr e) -> resume_error e.
 Proof.
-  unfold schedule_new_tasks. destruct (Nat.leb _ _); [discriminate|]. apply schedule_k_err.
+  intro H. apply schedule_new_tasks_cases in H. destruct H as (st1 & _ & [[_ Hr]|(k & _ & Hk)]); [discriminate|].
+  eapply schedule_k_err; eauto.
 Qed.
 
 Lemma loop_0 st c ex : loop prm o 0 st c ex = (st, LFuel).
@@ -761,12 +834,6 @@ Proof.
   unfold binv. simpl. repeat split; [constructor|lia|intros t Ht; lia].
 Qed.
 
-(* the invariant also holds between the atomic steps inside one iteration *)
-Lemma binv_mono st st' :
-  s_running st' = s_running st -> s_ntrials st' = s_ntrials st -> act_mono st st' -> binv st -> binv st'.
-Proof.
-  intros R1 R2 Hm (I1 & I2 & I3). unfold binv. rewrite R1, R2. repeat split; auto.
-Qed.
 
 Lemma budget_steps :
   (forall order st st' sd rs, fetch o order st = (st', sd, rs) -> binv st -> binv st') /\
@@ -928,13 +995,18 @@ Proof.
   destruct r1; [eapply ext_trans; eauto| |]; injection H as <- <-; exact E1.
 Qed.
 
-Definition sched_sleep_ev (e : event) : bool := match e with ECbSleep => true | _ => sched_ev e end.
+Definition sched_sleep_ev (e : event) : bool := match e with ECbSleep | EBBusy _ => true | _ => sched_ev e end.
 
 Lemma schedule_new_tasks_ext st st' r : schedule_new_tasks prm o st = (st', r) -> ext sched_sleep_ev st st'.
 Proof.
-  unfold schedule_new_tasks. destruct (Nat.leb _ _).
-  - intro H; injection H as <- <-. apply ext_emit. reflexivity.
-  - intro H. apply schedule_k_ext in H. eapply ext_weaken; [|exact H]. intros e He. unfold sched_sleep_ev. rewrite He. destruct e; reflexivity.
+  intro H. apply schedule_new_tasks_cases in H. destruct H as (st1 & Hbl & Hc).
+  assert (E1 : ext sched_sleep_ev st st1).
+  { destruct Hbl as [->|[busy Hb]]; [apply ext_refl|]. apply busy_look_spec in Hb. destruct Hb as (_ & _ & Ht & _).
+    exists [EBBusy busy]. split; [exact Ht|reflexivity]. }
+  destruct Hc as [[-> ->]|(k & _ & Hk)].
+  - eapply ext_trans; [exact E1|apply ext_emit; reflexivity].
+  - eapply ext_trans; [exact E1|]. apply schedule_k_ext in Hk. eapply ext_weaken; [|exact Hk].
+    intros e He. unfold sched_sleep_ev. rewrite He. destruct e; reflexivity.
 Qed.
 
 (* ======================================================================== *)
@@ -1471,9 +1543,11 @@ Qed.
 
 Lemma schedule_new_tasks_sinv st st' r : schedule_new_tasks prm o st = (st', r) -> sinv st -> sinv st'.
 Proof.
-  unfold schedule_new_tasks. destruct (Nat.leb _ _).
-  - intros H Hs. injection H as <- <-. eapply sinv_frame; try reflexivity. exact Hs.
-  - apply schedule_k_sinv.
+  apply (schedule_new_tasks_inv sinv).
+  - intros s0 s1 [->|[busy Hb]] Hs; [exact Hs|]. apply busy_look_spec in Hb.
+    destruct Hb as (R1 & R2 & _ & _ & _ & R6 & R7 & _). eapply sinv_frame; eauto.
+  - intros s0 Hs. eapply sinv_frame; try reflexivity. exact Hs.
+  - intros k s0 s2 r2 Hk _. eapply schedule_k_sinv; eauto.
 Qed.
 
 Lemma iteration_end_sinv st st' c : iteration_end prm o st = (st', c) -> sinv st -> sinv st'.
@@ -1762,9 +1836,12 @@ Lemma schedule_new_tasks_count p st st' r :
   p InProgress = false -> schedule_new_tasks prm o st = (st', r) ->
   num_status p (s_smap st') <= num_status p (s_smap st) /\ s_ntrials st' <= s_ntrials st + n_workers prm.
 Proof.
-  intro Hp. unfold schedule_new_tasks. destruct (Nat.leb _ _).
-  - intro H; injection H as <- <-. simpl. lia.
-  - intro H. apply (schedule_k_count p) in H; [|exact Hp]. lia.
+  intros Hp H. apply schedule_new_tasks_cases in H. destruct H as (st1 & Hbl & Hc).
+  assert (E1 : s_smap st1 = s_smap st /\ s_ntrials st1 = s_ntrials st).
+  { destruct Hbl as [->|[busy Hb]]; [auto|]. apply busy_look_spec in Hb. tauto. }
+  destruct E1 as [E1 E2]. destruct Hc as [[-> ->]|(k & Hlen & Hk)].
+  - simpl. rewrite E1, E2. lia.
+  - apply (schedule_k_count p) in Hk; [|exact Hp]. rewrite E1, E2 in Hk. lia.
 Qed.
 
 (* a criterion that is False bounds every count it names *)
@@ -1975,9 +2052,11 @@ Proof.
 Qed.
 Lemma schedule_new_tasks_idinv st st' r : schedule_new_tasks prm o st = (st', r) -> idinv st -> idinv st'.
 Proof.
-  unfold schedule_new_tasks. destruct (Nat.leb _ _).
-  - intros H Hi. injection H as <- <-. destruct Hi as [A B]. unfold idinv. simpl. auto.
-  - apply schedule_k_idinv.
+  apply (schedule_new_tasks_inv idinv).
+  - intros s0 s1 [->|[busy Hb]] Hi; [exact Hi|]. apply busy_look_spec in Hb. destruct Hb as (_ & R2 & Ht & _).
+    destruct Hi as [A B]. unfold idinv. rewrite Ht, R2. simpl. unfold count_starts, count_ev in *. simpl. auto.
+  - intros s0 [A B]. unfold idinv. simpl. auto.
+  - intros k s0 s2 r2 Hk _. eapply schedule_k_idinv; eauto.
 Qed.
 
 Lemma poll_ev_id_free e : poll_ev e = true -> id_free e = true.
@@ -2471,9 +2550,18 @@ Qed.
 
 Lemma schedule_new_tasks_life st st' r : schedule_new_tasks prm o st = (st', r) -> LInv st -> LInv st'.
 Proof.
-  unfold schedule_new_tasks. destruct (Nat.leb _ _).
-  - intros H Hi. injection H as <- <-. apply LInv_emit_quiet; [reflexivity|exact Hi].
-  - apply schedule_k_life.
+  apply (schedule_new_tasks_inv LInv).
+  - intros s0 s1 [->|[busy Hb]] Hi; [exact Hi|]. apply busy_look_spec in Hb.
+    destruct Hb as (R1 & R2 & Ht & _ & _ & _ & _ & _ & Htd & Hp & _).
+    destruct Hi as [(L1 & L3 & L4) HR].
+    assert (Hph : forall x, phase_of x (s_trace s1) = phase_of x (s_trace s0)) by (intro x; rewrite Ht; reflexivity).
+    split; [split; [|split]|].
+    + intro x. rewrite Hph. apply L1.
+    + intros x Hx. rewrite Hph. apply L3. rewrite <- R2. exact Hx.
+    + intros x Hx. rewrite Hph. apply L4. destruct Hx as [Hx|Hx]; [left; rewrite <- Htd; exact Hx|right; apply Hp; exact Hx].
+    + intros x Hx. rewrite Hph. apply HR. rewrite <- R1. exact Hx.
+  - intros s0 Hi. apply LInv_emit_quiet; [reflexivity|exact Hi].
+  - intros k s0 s2 r2 Hk _. eapply schedule_k_life; eauto.
 Qed.
 
 Lemma iteration_end_life st st' c : iteration_end prm o st = (st', c) -> LInv st -> LInv st'.
@@ -2598,9 +2686,13 @@ Qed.
 Lemma schedule_new_tasks_xinv st st' r : schedule_new_tasks prm o st = (st', r) -> xinv st false ->
   match r with SStopIteration => xinv st' true | SOk => xinv st' false | SErr _ => no_suggest_after_none (s_trace st') end.
 Proof.
-  unfold schedule_new_tasks. destruct (Nat.leb _ _).
-  - intros H [A B]. injection H as <- <-. unfold xinv. simpl. auto.
-  - apply schedule_k_xinv.
+  intros H Hx. apply schedule_new_tasks_cases in H. destruct H as (st1 & Hbl & Hc).
+  assert (Hx1 : xinv st1 false).
+  { destruct Hbl as [->|[busy Hb]]; [exact Hx|]. apply busy_look_spec in Hb. destruct Hb as (_ & _ & Ht & _).
+    destruct Hx as [A B]. unfold xinv. rewrite Ht. simpl. unfold exhausted in *. simpl. repeat split; auto; discriminate. }
+  destruct Hc as [[-> ->]|(k & _ & Hk)].
+  - destruct Hx1 as [A B]. unfold xinv. simpl. repeat split; auto; discriminate.
+  - eapply schedule_k_xinv; eauto.
 Qed.
 
 (* how run_loop can end *)
